@@ -134,6 +134,7 @@ func (c *connection) write() {
 	for {
 		select {
 		case <-c.stopChan:
+			c.onStopEvent(record)
 			clear(record)
 			return
 		case activeMsg, ok := <-c.activeMsgChan: // 平台主动下发的
@@ -160,6 +161,18 @@ func (c *connection) write() {
 				}
 			}
 		}
+	}
+}
+
+// onStopEvent 连接结束时 已经下发还在等待应答的 和 还在队列中没有下发的主动请求
+// 都回复失败 否则SendActiveMessage的调用方会一直阻塞
+func (c *connection) onStopEvent(record map[uint16]*ActiveMessage) {
+	for _, v := range record {
+		v.replyChan <- newActiveMessage(v.ExtensionFields.PlatformSeq, v.Command, v.ExtensionFields.Data,
+			errors.Join(ErrWriteDataFail, net.ErrClosed))
+	}
+	for activeMsg := range c.activeMsgChan { // stop会关闭activeMsgChan 之后不会再有新的请求
+		activeMsg.replyChan <- newErrMessage(errors.Join(ErrWriteDataFail, net.ErrClosed))
 	}
 }
 
